@@ -810,11 +810,13 @@ func (a *bnAn) hi(v ssa.Value, at *ssa.BasicBlock, depth int) (int64, bool) {
 func runBN(c *Ctx) (obls []Obl) {
 	a := newAgg(c, &obls)
 	defer a.flush()
+	parseRules(c, a)
+	miscRules(c, a)
 	bnBounds(c, a)
+	bnZero(c, a)
+	bnUpper(c, a)
 	pnPanics(c, a)
 	lpLoops(c, a)
-	miscRules(c, a)
-	parseRules(c, a)
 	return
 }
 
